@@ -17,6 +17,7 @@
 package stream
 
 import (
+	"github.com/rulego/streamsql/utils/verifhook"
 	"sync/atomic"
 	"time"
 )
@@ -35,6 +36,7 @@ func (s *Stream) safeSendToDataChan(data map[string]any) bool {
 	if atomic.LoadInt32(&s.stopped) == 1 {
 		return false
 	}
+	verifhook.Yield("datachan.send.before-rlock")
 	s.dataChanMux.RLock()
 	defer s.dataChanMux.RUnlock()
 	if s.dataChan == nil {
@@ -119,6 +121,7 @@ func (s *Stream) expandDataChannel() {
 
 	// Keep the consumer out while rows are moved (see consumeMux), then migrate
 	// under the write lock so no producer can send meanwhile.
+	verifhook.Yield("expand.before-locks")
 	s.consumeMux.Lock()
 	defer s.consumeMux.Unlock()
 	s.dataChanMux.Lock()
@@ -152,6 +155,7 @@ migration_done:
 	// Atomically update channel reference
 	s.dataChan = newChan
 	s.dataChanMux.Unlock()
+	verifhook.Yield("expand.after-swap")
 
 	s.log.Debug("Channel expansion completed: migrated %d items", migratedCount)
 }
